@@ -13,9 +13,10 @@ Local Open Scope list_scope.
 
 (* ------------------------------------------------------------------ accesses *)
 Inductive akind := KOpen | KRead | KReadlink | KListdir | KStat | KLstat | KSys | KAccess.
-(* whose path: the object's own /proc/<pid>/.., another process's, a global procfs file,
-   or (listing-driven loops over all pids) whichever the current loop entry is *)
-Inductive who := Self | Other | Global | Any.
+(* whose path: the object's own /proc/<pid>/..; the OTHER process in focus (the current entry: a child, the
+   parent, a pid of the listing); a global procfs file; [Any] = the current entry, which is the object's own
+   pid or another one; [Ext] = a file outside procfs (refusable, belongs to no process) *)
+Inductive who := Self | Other | Global | Any | Ext.
 (* which file (scripts are closed terms: pids appear only when a log is rendered, see [render]);
    the *E files are those of the current loop entry *)
 Inductive fid :=
@@ -24,11 +25,11 @@ Inductive fid :=
 | FTaskDir | FTaskStatE                  (* /proc/<pid>/task, /proc/<pid>/task/<entry>/stat *)
 | FFdDir | FFdE | FFdinfoE               (* /proc/<pid>/fd, fd/<entry>, fdinfo/<entry> *)
 | FSysPrio | FSysIoprio | FSysAffinity | FSysRlimit   (* per-process system calls of the C extension *)
-| FParentStat                            (* /proc/<ppid>/stat *)
-| FStatE                                 (* /proc/<entry>/stat *)
+| FStatE | FCmdlineE                     (* /proc/<entry>/stat, /proc/<entry>/cmdline *)
+| FSysKill                               (* os.kill(pid, 0) of pid_exists() *)
 | FRoot | FNetTcp | FNetTcp6 | FNetUdp | FNetUdp6 | FNetUnix    (* /proc, /proc/net/... *)
-(* accesses OUTSIDE procfs that Process methods perform (whose = Other: they can be refused, they do not vanish
-   with the process) *)
+(* accesses OUTSIDE procfs that Process methods perform (whose = Ext: they can be refused, they do not vanish
+   with a process) *)
 | FExeDel | FCwdDel                      (* os.stat("<exe|cwd target> (deleted)") in readlink()'s clean-up *)
 | FTargetDelE | FTargetE                 (* os.stat of fd/<entry>'s target: with " (deleted)" (clean-up), stripped (isfile_strict) *)
 | FMapPathE                              (* os.stat("<mapped file> (deleted)") in memory_maps() *)
@@ -54,6 +55,7 @@ Inductive xc :=
 | XPerm           (* PermissionError    *)
 | XOsOther        (* any other OSError (EINVAL, ENAMETOOLONG) *)
 | XNSP (w : who) | XZombie (w : who) | XAD (w : who)   (* psutil errors, carrying which process's pid *)
+| XTimeout        (* psutil.TimeoutExpired (wait(timeout) on a process that is still there) *)
 | XPy.            (* any other Python exception *)
 
 Definition xc_of (e : errno) : xc :=
@@ -76,6 +78,7 @@ Inductive test :=
 | TEmpty | TZombie | TLink (c : lcls)     (* on the data returned by the last successful access *)
 | TFlag (n : nat)                        (* local / object boolean *)
 | TParam (n : nat)                       (* a fact about the world that is not an access *)
+| TParamCur (n : nat)                    (* ... about the current entry *)
 | TCur (h : hpat).                       (* inside a handler: does the exception being handled match h *)
 
 Inductive prog :=
@@ -92,8 +95,10 @@ Inductive prog :=
 | Call (p : prog)                        (* function call boundary: return inside p ends p only *)
 | Memo (n : nat) (p : prog)              (* memoize_when_activated slot n *)
 | CacheOn | CacheOff                     (* oneshot enter / exit *)
-| Collect (n : nat)                      (* if the current loop entry is in world list n, remember it *)
-| LoadNames.                             (* the entries remembered so far become the list to iterate; forget them *)
+| Collect                                (* remember the current loop entry (ppid_map: its stat could be read) *)
+| LoadKids                               (* the remembered pids whose parent is this process become the list to iterate *)
+| FocusParent                            (* the parent becomes the current entry *)
+| Walk (b : prog).                       (* children(recursive=True): the stack walk over the remembered pids, see [walk] *)
 
 (* except clauses in order; an exception no clause matches propagates *)
 Fixpoint handlers (hs : list (hpat * prog)) : prog :=
@@ -103,26 +108,37 @@ Fixpoint seqs (ps : list prog) : prog :=
 
 (* ------------------------------------------------------------------ the world (fault model) *)
 Record world := {
-  w_base   : bool -> akind -> who -> fid -> string -> res;  (* answer without a fault: gone?, kind, whose, file, loop entry *)
+  w_base   : (string -> bool) -> akind -> who -> fid -> string -> res;
+                                  (* answer without a fault: which pids are gone, kind, whose, file, current entry *)
   w_self   : string;                                  (* the object's pid as text (resolves [Any]) *)
   w_vanish : option nat;                              (* V: the process is removed just before this access index *)
   w_deny   : nat -> bool;                             (* D: these access indexes are refused (EACCES/EPERM) *)
+  w_ovanish : string -> option nat;                   (* VO: another process is removed just before this index *)
   w_param  : nat -> bool;
-  w_names  : nat -> list string }.
+  w_pcur   : nat -> string -> bool;
+  w_parent : string;                                  (* the parent's pid *)
+  w_kids   : string -> list string }.                 (* pids whose stat names the given pid as parent (listing order) *)
 
 Definition gone_at (w : world) (i : nat) : bool :=
   match w_vanish w with Some v => Nat.leb v i | None => false end.
+Definition ogone_at (w : world) (p : string) (i : nat) : bool :=
+  match w_ovanish w p with Some v => Nat.leb v i | None => false end.
+Definition gonef (w : world) (i : nat) (p : string) : bool :=
+  if String.eqb p (w_self w) then gone_at w i else ogone_at w p i.
 Definition rwho (w : world) (l : label) (cur : string) : who :=
   match l_who l with Any => if String.eqb cur (w_self w) then Self else Other | x => x end.
 Definition vanish_errno (k : akind) : errno := match k with KRead | KSys => ESRCH | _ => ENOENT end.
 Definition is_global (x : who) := match x with Global => true | _ => false end.
-Definition is_self (x : who) := match x with Self => true | _ => false end.
+(* does the access fail because the process it belongs to is gone ([Other]: the process named by the current
+   entry -- which, in a walk over all pids, may be the object's own) *)
+Definition vanished (w : world) (r : who) (cur : string) (i : nat) : bool :=
+  match r with Self => gone_at w i | Other => gonef w i cur | _ => false end.
 
 Definition answer (w : world) (i : nat) (l : label) (cur : string) : res :=
   let r := rwho w l cur in
-  if is_self r && gone_at w i then Err (vanish_errno (l_kind l))
+  if vanished w r cur i then Err (vanish_errno (l_kind l))
   else if negb (is_global r) && w_deny w i then Err EACCES
-  else w_base w (gone_at w i) (l_kind l) r (l_file l) cur.
+  else w_base w (gonef w i) (l_kind l) r (l_file l) cur.
 
 (* ------------------------------------------------------------------ interpreter *)
 Record st := {
@@ -175,7 +191,7 @@ Definition eval_test (w : world) (t : test) (cx : xc) (s : st) : bool :=
   match t with
   | TEmpty => d_empty (s_data s) | TZombie => d_zombie (s_data s)
   | TLink c => lcls_eqb c (d_link (s_data s))
-  | TFlag n => flag_on s n | TParam n => w_param w n | TCur h => hmatch h cx
+  | TFlag n => flag_on s n | TParam n => w_param w n | TParamCur n => w_pcur w n (s_cur s) | TCur h => hmatch h cx
   end.
 
 Fixpoint iter_names (body : st -> sig * st) (ns : list string) (s : st) : sig * st :=
@@ -184,8 +200,40 @@ Fixpoint iter_names (body : st -> sig * st) (ns : list string) (s : st) : sig * 
   | n :: r => match body (set_cur s n) with (SNormal, s1) => iter_names body r s1 | o => o end
   end.
 
+(* children(recursive=True):  stack = [self]; while stack: pid = stack.pop(); skip if seen; for child in kids[pid]:
+   body(child); if the body asked for it (flag [push]) stack.append(child).  [stack]: head = top.  Every pid is
+   pushed at most once (it has one parent), [fuel] = number of remembered pids + 1 suffices. *)
+Fixpoint visit (body : st -> sig * st) (push : nat) (kids : list string) (stack : list string) (s : st)
+  : sig * st * list string :=
+  match kids with
+  | [] => (SNormal, s, stack)
+  | k :: r => match body (set_cur s k) with
+              | (SNormal, s1) => visit body push r (if flag_on s1 push then k :: stack else stack) s1
+              | (sg, s1) => (sg, s1, stack)
+              end
+  end.
+Fixpoint walk (body : st -> sig * st) (push : nat) (kids : string -> list string) (fuel : nat)
+              (stack seen : list string) (s : st) : sig * st :=
+  match fuel with
+  | O => (SNormal, s)
+  | S f =>
+      match stack with
+      | [] => (SNormal, s)
+      | pid :: rest =>
+          if existsb (String.eqb pid) seen then walk body push kids f rest seen s
+          else match visit body push (kids pid) rest s with
+               | (SNormal, s1, stack1) => walk body push kids f stack1 (pid :: seen) s1
+               | (sg, s1, _) => (sg, s1)
+               end
+      end
+  end.
+Definition F_PUSH := 20%nat.    (* the walk body: push this child *)
+
 Section Exec.
 Variable w : world.
+(* children of [pid] as ppid_map saw them: remembered pids, never the object itself *)
+Definition kids_of (acc : list string) (pid : string) : list string :=
+  filter (fun k => negb (String.eqb k (w_self w)) && existsb (String.eqb k) acc) (w_kids w pid).
 (* [cx] = the exception currently being handled (meaningful inside handlers only) *)
 Fixpoint exec (p : prog) (cx : xc) (s : st) {struct p} : sig * st :=
   match p with
@@ -222,10 +270,12 @@ Fixpoint exec (p : prog) (cx : xc) (s : st) {struct p} : sig * st :=
       else exec p cx s
   | CacheOn => (SNormal, set_cache s true)
   | CacheOff => (SNormal, set_cache s false)
-  | Collect n =>
-      (SNormal, if existsb (String.eqb (s_cur s)) (w_names w n) then push_acc s else s)
-  | LoadNames =>
-      (SNormal, clear_acc (set_data s {| d_empty := false; d_zombie := false; d_names := rev (s_acc s); d_link := LOtherLink |}))
+  | Collect => (SNormal, push_acc s)
+  | LoadKids =>
+      (SNormal, set_data s {| d_empty := false; d_zombie := false; d_names := kids_of (s_acc s) (w_self w);
+                              d_link := LOtherLink |})
+  | FocusParent => (SNormal, set_cur s (w_parent w))
+  | Walk b => walk (exec b cx) F_PUSH (kids_of (s_acc s)) (S (List.length (s_acc s))) [w_self w] [] s
   end.
 End Exec.
 
@@ -281,7 +331,7 @@ Definition read_smaps := Call (wrapped (Memo 2 (bcat Self FSmaps))).
 
 (* path_exists_strict / isfile_strict: os.stat, PermissionError is re-raised, any other OSError means "no" *)
 Definition stat_strict (f : fid) (yes : prog) :=
-  Try (acc KStat Other f) (handlers [(HPerm, Reraise); (HOSError, Skip)]) yes.
+  Try (acc KStat Ext f) (handlers [(HPerm, Reraise); (HOSError, Skip)]) yes.
 Definition link_in (cs : list lcls) (n : nat) : prog :=
   fold_right (fun c r => If (TLink c) (SetFlag n true) r) (SetFlag n false) cs.
 (* _pslinux.readlink(path): os.readlink, then for a target ending in " (deleted)": path_exists_strict(target) *)
@@ -374,7 +424,7 @@ Definition i_net_connections (kind : nat) :=
 (* terminal(): tty_nr from stat, then _psposix.get_terminal_map(): scan /dev, os.stat every tty (ENOENT tolerated) *)
 Definition i_terminal :=
   Call (wrapped (seqs [ parse_stat; acc KListdir Global FDevDir;
-                        ForNames (Try (acc KStat Other FDevE) (handlers [(HFnf, Skip)]) Skip); Ret ])).
+                        ForNames (Try (acc KStat Ext FDevE) (handlers [(HFnf, Skip)]) Skip); Ret ])).
 Definition i_sys (f : fid) := Call (wrapped (acc KSys Self f)).    (* nice_get ionice_get cpu_affinity_get *)
 Definition i_rlimit := Call (wrapped (Try (acc KSys Self FSysRlimit) (handlers [(HOSError, Reraise)]) Skip)).
 
@@ -388,15 +438,21 @@ Definition guess_it (on_fail : prog) :=
   seqs [ i_cmdline;
          If (TFlag F_NOCMD) on_fail
            (If (TParam W_GUESS)
-               (Try (acc KStat Other FGuessExe) (handlers [(HOSError, on_fail)])
-                    (Try (acc KAccess Other FGuessExe) (handlers [(HOSError, on_fail)]) Ret))
+               (Try (acc KStat Ext FGuessExe) (handlers [(HOSError, on_fail)])
+                    (Try (acc KAccess Ext FGuessExe) (handlers [(HOSError, on_fail)]) Ret))
                on_fail) ].
-Definition f_exe_with (ie : prog) :=
+(* memoised front-end accessors: `if self._x is None: self._x = ...; return self._x` *)
+Definition cached (f : nat) (body : prog) := If (TFlag f) Skip body.
+Definition F_EXE := 17%nat.      (* Process._exe is set *)
+Definition F_EXITCODE := 18%nat. (* Process._exitcode is set *)
+Definition exe_body_with (ie : prog) :=
   seqs [ Try ie (handlers [(HAD, guess_it (Raise (XAD Self)))])
-             (If (TFlag F_FALLBACK) (Try (Call (guess_it Ret)) (handlers [(HAD, Skip)]) Skip) Skip);
+             (Seq (If (TFlag F_FALLBACK) (Try (Call (guess_it Ret)) (handlers [(HAD, Skip)]) Skip) Skip)
+                  (SetFlag F_EXE true));          (* self._exe = exe *)
          Ret ].
-Definition f_exe := f_exe_with i_exe.
-Definition legacy_f_exe := f_exe_with legacy_i_exe.
+Definition exe_body := exe_body_with i_exe.
+Definition f_exe := cached F_EXE exe_body.
+Definition legacy_f_exe := cached F_EXE (exe_body_with legacy_i_exe).
 Definition f_status := Try i_stat_based (handlers [(HZombie, Ret)]) Ret.
 (* Process(pid) for the process [x]: _init -> _get_ident -> _proc.create_time(monotonic=True) on a NEW
    platform object (no oneshot cache) *)
@@ -438,7 +494,8 @@ Definition raise_if_pid_reused := raise_if_pid_reused_of NOW Self FStat F_GONE F
 Definition legacy_raise_if_pid_reused := raise_if_pid_reused_of LEGACY Self FStat F_GONE F_REUSED None Ret.
 Definition f_ppid := Call (Memo 3 (Seq raise_if_pid_reused i_stat_based)).
 Definition legacy_f_ppid := Call (Memo 3 (Seq legacy_raise_if_pid_reused i_stat_based)).
-Definition f_create_time := If (TFlag F_CTIME) Skip (Seq i_stat_based (SetFlag F_CTIME true)).
+Definition create_time_body := Seq i_stat_based (SetFlag F_CTIME true).
+Definition f_create_time := cached F_CTIME create_time_body.
 Definition f_uids := Call (Memo 4 i_status_based).
 Definition f_cpu_times := Call (Memo 5 i_stat_based).
 Definition f_memory_info := Call (Memo 6 i_memory_info).
@@ -454,9 +511,10 @@ Definition f_parent :=
                  (If (TParam W_ISLOWEST) Ret (Raise (XNSP Self)));
     If (TParam W_ISLOWEST) Ret
     (seqs [ f_ppid; f_create_time;
-            Try (seqs [ new_process Other FParentStat;
+            FocusParent;
+            Try (seqs [ new_process Other FStatE;
                         If (TFlag F_NOIDENT) (SetFlag F_PNOIDENT true) (SetFlag F_PNOIDENT false);
-                        Call (wrapped_at Other FParentStat (bcat Other FParentStat));
+                        Call (wrapped_at Other FStatE (bcat Other FStatE));
                         SetFlag F_HASPARENT true; Ret ])
                 (handlers [(HNSP, Skip)]) Skip;
             Ret ]) ]).
@@ -464,22 +522,28 @@ Definition f_parent :=
    _raise_if_pid_reused() touches the OS *)
 Definition f_parents :=
   Call (seqs [ SetFlag F_HASPARENT false; f_parent;
-               If (TFlag F_HASPARENT) (raise_if_pid_reused_of NOW Other FParentStat F_PGONE F_PREUSED (Some F_PNOIDENT) Ret) Skip; Ret ]).
+               If (TFlag F_HASPARENT) (raise_if_pid_reused_of NOW Other FStatE F_PGONE F_PREUSED (Some F_PNOIDENT) Ret) Skip; Ret ]).
 (* children(recursive=False): _raise_if_pid_reused(); ppid_map(); for each child: Process(child), create times *)
 (* ppid_map(): a pid whose stat cannot be read (gone, or refused since commit 1c63e73) is left out *)
-Definition N_CHILDREN := 0%nat.   (* pids whose stat names this process as parent *)
 Definition ppid_map_with (hs : list (hpat * prog)) :=
   seqs [ acc KListdir Global FRoot;
-         ForNames (Try (bcat Any FStatE) (handlers hs) (Collect N_CHILDREN)) ].
+         ForNames (Try (bcat Any FStatE) (handlers hs) Collect) ].
 Definition ppid_map := ppid_map_with [(HFnfEsrch, Skip); (HPerm, Skip)].
+(* one child: Process(child); self.create_time() <= child.create_time() *)
+Definition child_body :=
+  seqs [ new_process Other FStatE; f_create_time; Call (wrapped_at Other FStatE (bcat Other FStatE)) ].
 Definition children_with (check pmap : prog) :=
-  Call (seqs [ check; pmap; LoadNames;
-               ForNames (Try (seqs [ new_process Other FStatE; f_create_time;
-                                     Call (wrapped_at Other FStatE (bcat Other FStatE)) ])
-                             (handlers [(HNSP, Skip)]) Skip);
+  Call (seqs [ check; pmap; LoadKids;
+               ForNames (Try child_body (handlers [(HNSP, Skip)]) Skip);
                Ret ]).
 Definition f_children := children_with raise_if_pid_reused ppid_map.
 Definition legacy_f_children := children_with legacy_raise_if_pid_reused (ppid_map_with [(HFnfEsrch, Skip)]).
+(* children(recursive=True): the stack walk; a child that could be queried is appended and pushed *)
+Definition f_children_rec :=
+  Call (seqs [ raise_if_pid_reused; ppid_map;
+               Walk (Seq (SetFlag F_PUSH false)
+                         (Try (Seq child_body (SetFlag F_PUSH true)) (handlers [(HNSP, Skip)]) Skip));
+               Ret ]).
 
 (* as_dict(attrs): with self.oneshot(): for name in attrs: try meth() except (AccessDenied, ZombieProcess): ad_value *)
 Definition as_dict (ms : list prog) :=
@@ -487,3 +551,48 @@ Definition as_dict (ms : list prog) :=
          Try (seqs (map (fun m => Try (Call m) (handlers [(HADZ, Skip)]) Skip) ms))
              (handlers [(HAny, Seq CacheOff Reraise)]) CacheOff;
          Ret ].
+
+(* `with p.oneshot(): m1(); m2(); ...` -- the first exception leaves the block *)
+Definition oneshot_block (ms : list prog) :=
+  seqs [ CacheOn; Try (seqs (map Call ms)) (handlers [(HAny, Seq CacheOff Reraise)]) CacheOff; Ret ].
+(* ... and the same with every call in `try: ... except psutil.Error: pass` *)
+Definition oneshot_block_c (ms : list prog) :=
+  seqs [ CacheOn;
+         Try (seqs (map (fun m => Try (Call m) (handlers [(HNSP, Skip); (HAD, Skip)]) Skip) ms))
+             (handlers [(HAny, Seq CacheOff Reraise)]) CacheOff;
+         Ret ].
+
+(* wait(timeout=0) on a process that is not our child: os.waitpid says ECHILD (whatever the process does: not an
+   access point), then pid_exists(): os.kill(pid, 0); ESRCH -> return None, else (EPERM included) the process is
+   there -> TimeoutExpired *)
+Definition i_wait :=
+  Call (wrapped (Try (acc KSys Self FSysKill) (handlers [(HEsrch, Ret); (HPerm, Raise XTimeout)]) (Raise XTimeout))).
+Definition wait_body := Seq i_wait (SetFlag F_EXITCODE true).
+Definition f_wait := cached F_EXITCODE wait_body.
+
+(* ---- the same queries on the Process object of the CURRENT ENTRY (process_iter): files of /proc/<entry>/ *)
+Definition parse_stat_of (x : who) (st : fid) := Call (wrapped_at x st (Memo 0 (bcat x st))).
+Definition stat_based_of (x : who) (st : fid) := Call (wrapped_at x st (parse_stat_of x st)).
+Definition cmdline_of (x : who) (st cm : fid) :=
+  Call (wrapped_at x st (seqs [acc KOpen x cm; acc KRead x cm;
+                               If TEmpty (seqs [SetFlag F_NOCMD true; raise_if_zombie x st; Ret])
+                                         (Seq (SetFlag F_NOCMD false) Ret)])).
+Definition name_of (x : who) (st cm : fid) :=
+  seqs [ stat_based_of x st;
+         If (TParamCur W_LONGNAME) (Try (cmdline_of x st cm) (handlers [(HADZ, Skip)]) Skip) Skip; Ret ].
+Definition F_EGONE := 21%nat.    (* the entry object's _gone / _pid_reused / _ident == (pid, None) *)
+Definition F_EREUSED := 22%nat.
+Definition F_ENOIDENT := 23%nat.
+Definition ppid_of (x : who) (st : fid) :=
+  Call (Memo 3 (Seq (raise_if_pid_reused_of NOW x st F_EGONE F_EREUSED (Some F_ENOIDENT) Ret) (stat_based_of x st))).
+Definition status_of (x : who) (st : fid) := Try (stat_based_of x st) (handlers [(HZombie, Ret)]) Ret.
+(* process_iter(attrs) with an empty cache: pids(); for each pid: Process(pid); proc.as_dict(attrs);
+   NoSuchProcess (ZombieProcess included) -> the pid is skipped *)
+Definition f_iter (ms : list prog) :=
+  Call (seqs [ acc KListdir Global FRoot;
+               ForNames (Try (seqs [ new_process Any FStatE;
+                                     If (TFlag F_NOIDENT) (SetFlag F_ENOIDENT true) (SetFlag F_ENOIDENT false);
+                                     SetFlag F_EGONE false; SetFlag F_EREUSED false;
+                                     Call (as_dict ms) ])
+                             (handlers [(HNSP, Skip)]) Skip);
+               Ret ]).
